@@ -230,6 +230,13 @@ func runC16(c *eng.Ctx) {
 			if strings.Contains(p.Desc(cd), ".rowCount") || strings.Contains(p.Desc(cd), "Len()") {
 				okB = true
 			}
+			// or the length of the live-row view handed out by Rows()
+			if eng.DependsOn(cd, func(x ssa.Value) bool {
+				cl, ok := x.(*ssa.Call)
+				return ok && cl.Common().StaticCallee() != nil && p.FuncKey(cl.Common().StaticCallee()) == bbrT+".Rows"
+			}) {
+				okB = true
+			}
 		}
 		c.Check(okB, "all-rows", st.Instr, f, "the loop runs over every row below Len()", "")
 	})
